@@ -4,7 +4,8 @@ from .rules import kdefects, numeric, seed, typestate, ownership, clifford, circ
 M = 'numqi.'
 DECISION_C05 = ['numqi.entangle.ppt.is_ppt', 'numqi.entangle.ppt.is_generalized_ppt',
                 'numqi.entangle.ppt.get_generalized_ppt_boundary', 'numqi.entangle._misc.check_swap_witness',
-                'numqi.entangle._misc.check_reduction_witness', 'numqi.utils.is_positive_semi_definite']
+                'numqi.entangle._misc.check_reduction_witness', 'numqi.utils.is_positive_semi_definite',
+                'numqi.entangle.symext.is_ABk_symmetric_ext']
 DECISION_C20 = ['numqi.matrix_space._numerical_range.detect_real_matrix_subspace_rank_one',
                 'numqi.matrix_space._hierarchy.has_rank_hierarchical_method',
                 'numqi.matrix_space._hierarchy.is_ABC_completely_entangled_subspace']
@@ -118,6 +119,11 @@ def c13(proj, rep, tier):
     rep.floor('V4 convex-roof forward methods', n, 4)
     n = round3b.v5(proj, rep, ['numqi.entangle.eof', 'numqi.entangle.measure'] if tier == 'quick' else None)
     rep.floor('V5 convex-roof forward methods with ensemble weights', n, 2)
+    n = round3b.sg1(proj, rep, ['numqi.entangle.measure.get_gme_2qubit', 'numqi.entangle.eof.get_eof_2qubit', 'numqi.entangle.eof.get_concurrence_2qubit',
+                                'numqi.entangle._misc.get_negativity', 'numqi.entangle.eof.get_eof_pure', 'numqi.entangle.eof.get_concurrence_pure'])
+    rep.floor('SG1 closed-form two-qubit measures with a single formulation', n, 6)
+    n = round3b.hm5(proj, rep)
+    rep.floor('HM5 functions of entangle + utils with a state argument', n, 40)
     n = kdefects.fz1_so1_id1_ev1(proj, rep, M13)
     rep.floor('EV1 / FZ1 / SO1 / ID1 lint sweep: functions scanned (eof / measure / _misc)', n, 30)
     rep.assume('ranges, local-unitary invariance, monotone relations between the measures, "non-zero iff NPT" and loss >= closed form '
@@ -243,11 +249,14 @@ def c02(proj, rep, tier):
     n = hermitian.hm1(proj, rep, MANIFOLD if tier == 'quick' else sorted(proj.modules))
     rep.floor('HM1 self-transpose compositions in the manifold maps', n, 10)
     n = round3b.w8(proj, rep, MANIFOLD if tier == 'quick' else None)
+    rep.floor('W8 forward trivialization maps scanned for saturating functions', n, 25)
     round3b.dt7(proj, rep, MANIFOLD if tier == 'quick' else None)
     n10, n11 = round3b.w10_w11(proj, rep)
     rep.floor('W10 power sites of the Cayley chart', n10, 2)
     rep.floor('W11 triu / tril splits of a parameter matrix', n11, 2)
-    rep.floor('W8 forward trivialization maps scanned for saturating functions', n, 25)
+    n = kdefects.up1_fw1(proj, rep, MANIFOLD if tier == 'quick' else None)
+    rep.floor('UP1 / FW1 parameters checked (manifold modules, constructors included)', n, 150)
+    n = round3b.dtype1_h7b_gr7_e4b(proj, rep, {'DTYPE1'})
     rep.assume('full rank of the Jacobian at generic theta is value-level: only necessary conditions (parameter count, theta '
                'placed in a field the projection keeps, theta reaches the map) are decided')
     rep.assume('Stiefel so-exp/so-cayley at rank==dim parametrise SO(d)/SU(d) (as the option name says), so the bound used '
@@ -278,6 +287,12 @@ def c08(proj, rep, tier):
     rep.floor('E6 functions converting unicode Pauli-string batches', n6, 2)
     n = round3b.par1_st3(proj, rep, ['numqi.gate._pauli', 'numqi.random._spf2'] if tier == 'quick' else None)
     rep.floor('PAR1 / ST3 sweep: functions scanned (Pauli modules)', n, 30)
+    n = round3b.dtype1_h7b_gr7_e4b(proj, rep, {'E4B'})
+    rep.floor('E4B identity-gated shortcuts in PauliOperator.__matmul__', n, 1)
+    n = kdefects.ro1(proj, rep, ['numqi.gate._pauli'])
+    rep.floor('RO1 reshape / ravel calls in the Pauli conversions', n, 20)
+    n = round3b.id2_lm2_dt12(proj, rep, ['numqi.gate._pauli', 'numqi.random._spf2'] if tier == 'quick' else None)
+    rep.floor('ID2 / LM2 / DT12 sweep: functions scanned (Pauli modules)', n, 30)
     n = round3b.e5(proj, rep)
     rep.floor('E5 scalar index -> F2 phase-bit obligations', n, 2)
     n = kdefects.st2(proj, rep, ['numqi.gate._pauli'] if tier == 'quick' else None)
@@ -305,6 +320,11 @@ def c12(proj, rep, tier):
     rep.floor('CH1 probe loops + LN1 linear application functions', n, 6)
     nfun, nq = round3b.qf1_hm6_ac1_lg1(proj, rep, ['numqi.utils', 'numqi.channel'] if tier == 'quick' else None)
     rep.floor('QF1 quadratic forms vdot(v, M @ v) in utils + channel', nq, 2)
+    n = round3b.sg1(proj, rep, ['numqi.gellmann.dm_to_gellmann_basis', 'numqi.gellmann.gellmann_basis_to_dm', 'numqi.gellmann.matrix_to_gellmann_basis',
+                                'numqi.gellmann.gellmann_basis_to_matrix'])
+    rep.floor('SG1 Gell-Mann conversions with a single formulation', n, 4)
+    n = round3b.hm5(proj, rep, ('numqi.utils', 'numqi.channel'))
+    rep.floor('HM5 functions of utils + channel with a state argument', n, 8)
     round3b.dt9(proj, rep, ['numqi.gellmann', 'numqi.channel', 'numqi.utils'] if tier == 'quick' else None)
     n6, n7 = round3b.f6_f7(proj, rep, ['numqi.utils', 'numqi.channel'])
     rep.floor('F6 functions of utils + channel scanned (sqrtm / entr of a raw spectrum)', n6, 30)
@@ -369,6 +389,9 @@ def c16(proj, rep, tier):
     round3b.dt9(proj, rep, ['numqi.gellmann'] if tier == 'quick' else None)
     n = round3b.gellmann_dtype(proj, rep)
     rep.floor('DT11 torch constructors in numqi.gellmann', n, 3)
+    n = round3b.sg1(proj, rep, ['numqi.gellmann.dm_to_gellmann_basis', 'numqi.gellmann.gellmann_basis_to_dm', 'numqi.gellmann.matrix_to_gellmann_basis',
+                                'numqi.gellmann.gellmann_basis_to_matrix'])
+    rep.floor('SG1 Gell-Mann conversions with a single formulation', n, 4)
     nopen, nfun = round3b.ax1_sm1_sinc1_vm1(proj, rep, ['numqi.gellmann'])
     nsite, ntyped = gellmann.g2(proj, rep, None)
     rep.floor('G2 synthesis call sites in the package', nsite, 20)
@@ -392,6 +415,8 @@ def c03(proj, rep, tier):
     rep.floor('D5 target-order assignments in the Circuit builders', n, 5)
     n = round3b.lm1(proj, rep, ['numqi.sim'] if tier == 'quick' else None)
     rep.floor('LM1 local memos inside loops (simulator)', n, 1)
+    n = round3b.dtype1_h7b_gr7_e4b(proj, rep, {'H7B'})
+    rep.floor('H7B register size of Circuit from every index slot', n, 1)
     n = round3b.so2_he1(proj, rep, ['numqi.sim'] if tier == 'quick' else None)
     rep.floor('SO2 set-typed parameters of the simulator', n, 3)
     nl, na, nf = round3b.sim_sweeps(proj, rep)
@@ -572,6 +597,10 @@ def c18(proj, rep, tier):
     rep.floor('UPB1 pairs of the literal four-qubit UPB', n, 15)
     nfun, nq = round3b.qf1_hm6_ac1_lg1(proj, rep, ['numqi.state', 'numqi.entangle.upb', 'numqi.dicke', 'numqi.unique_determine._internal'] if tier == 'quick' else None)
     rep.floor('HM6 / AC1 / LG1 / QF1 sweep: functions scanned (catalogue modules)', nfun, 40)
+    n = round3b.o6(proj, rep, ['numqi.state._internal', 'numqi.entangle.upb', 'numqi.dicke'])
+    rep.floor('O6 value returns of the public catalogue constructors', n, 25)
+    n = round3b.id2_lm2_dt12(proj, rep, ['numqi.state', 'numqi.entangle.upb', 'numqi.dicke', 'numqi.unique_determine._internal'] if tier == 'quick' else None)
+    rep.floor('DT12 / ID2 / LM2 sweep: functions scanned (catalogue modules)', n, 40)
     rep.floor('RP1 two-party block lists built from role-suffixed parameters', n, 1)
 
 
@@ -607,6 +636,8 @@ def c20(proj, rep, tier):
     rep.floor('AR4 grouped reshapes of multipartite tensors', nre, 2)
     nfun, nq = round3b.qf1_hm6_ac1_lg1(proj, rep, G20)
     rep.floor('AC1 / HM6 / LG1 / QF1 sweep: functions scanned (matrix_space)', nfun, 30)
+    n = round3b.id2_lm2_dt12(proj, rep, G20)
+    rep.floor('LM2 / ID2 / DT12 sweep: functions scanned (matrix_space)', n, 30)
 
 
 def c17(proj, rep, tier):
@@ -633,6 +664,8 @@ def c17(proj, rep, tier):
     rep.floor('MR2 radix keys in numqi.dicke', n, 2)
     nfun, nq = round3b.qf1_hm6_ac1_lg1(proj, rep, ['numqi.dicke', 'numqi.utils'] if tier == 'quick' else None)
     rep.floor('LG1 / HM6 / AC1 / QF1 sweep: functions scanned (dicke + utils)', nfun, 20)
+    n = round3b.sg1(proj, rep, ['numqi.dicke.Dicke', 'numqi.dicke.get_dicke_basis'])
+    rep.floor('SG1 Dicke constructors with a single formulation', n, 2)
     n = round3b.tr1(proj, rep, ['numqi.utils', 'numqi.dicke'] if tier == 'quick' else None)
     rep.floor('TR1 functions with an int-capable parameter (utils + dicke)', n, 3)
     rep.assume('orthonormality / permutation invariance of the Dicke vectors and the occupation-number identity itself '
@@ -698,6 +731,8 @@ def c14(proj, rep, tier):
     nfun, nq = round3b.qf1_hm6_ac1_lg1(proj, rep, G14)
     rep.floor('HM6 / AC1 / LG1 / QF1 sweep: functions scanned (group modules)', nfun, 25)
     round3b.upb1_gr8(proj, rep, {'GR8'})
+    n = round3b.dtype1_h7b_gr7_e4b(proj, rep, {'GR7'})
+    rep.floor('GR7 hook-branch bounds of the tableau recursion', n, 1)
     rep.assume('that a computed table satisfies the group axioms, that irreducible blocks are unitary homomorphisms with sum d^2 = |G|, that the Young-diagram '
                'list is the set of partitions and that the tableau enumeration matches the hook-length count are value-level: not decided')
 
